@@ -25,7 +25,7 @@ import (
 	"verif/vk"
 )
 
-const c06Rule = "one inbound message built field by field from a defect matrix (BeginString ok/other/junk; Sender/TargetCompID ok/swapped/foreign/empty/absent; optional Sub/Location/OnBehalfOf/DeliverTo IDs; SendingTime now / inside / outside the latency window / malformed / empty / absent; MsgSeqNum at/above/below expected, absent/empty/junk; PossDup and OrigSendingTime combinations; application and administrative types) delivered in the normal, recovering, test-request-pending and combined states and in the logon state, for every BeginString, CheckLatency on/off, MaxLatency 60/120/3600 s, with and without a dictionary; non-trivial = a parsable message with at least one defect, or a defect-free control; distinct = distinct (configuration, state, message shape)"
+const c06Rule = "one inbound message built field by field from a defect matrix (BeginString ok/other/junk; Sender/TargetCompID ok/swapped/foreign/empty/absent; optional Sub/Location/OnBehalfOf/DeliverTo IDs; SendingTime now / inside / outside the latency window / malformed / empty / absent; MsgSeqNum at/above/below expected, absent/empty/junk; PossDup and OrigSendingTime combinations; application and administrative types) delivered in the normal, recovering, test-request-pending and combined states and in the logon state, for every BeginString, CheckLatency on/off, MaxLatency 60/120/3600 s, with and without a dictionary; when the number was above the expected one the gap is then filled and the callbacks are looked at again; non-trivial = a parsable message with at least one defect, or a defect-free control; distinct = distinct (configuration, state, message shape)"
 
 func c06() *stats.Collector {
 	c := stats.Get("C06")
@@ -290,6 +290,27 @@ func c06Property(t *rapid.T) {
 		}
 	}
 	T2 := s.r.T()
+	// follow-up: a message kept for later (number above the expected one) is judged again when the
+	// gap before it is filled; the gate must hold then as well
+	var lateCbs []rig.Entry
+	if d.seq == "high" && state != "logon" && s.r.V.IsConnected() && seq > T2 {
+		gf := s.p.Frame("4", T2, []fixwire.Field{fixwire.F(123, "Y"), fixwire.F(36, strconv.Itoa(seq))}, peer.Opt{PossDup: "Y", OrigSending: stamp(now)})
+		s.logf("FOLLOW-UP gap fill %d -> %d", T2, seq)
+		st3 := s.r.In(gf)
+		if st3.Panic != nil {
+			vk.Violation(t, c, "C06/engine-panic", "%v\n%s", st3.Panic, s.history())
+		}
+		st4, _ := s.r.Flush()
+		for _, e := range append(append([]rig.Entry{}, s.r.Entries(st3)...), s.r.Entries(st4)...) {
+			if (e.Kind == "FromApp" || e.Kind == "FromAdmin") && bytes.Equal(e.Raw, raw) {
+				lateCbs = append(lateCbs, e)
+			}
+		}
+		c.Class("follow-up:gap-filled")
+		if len(lateCbs) > 0 {
+			c.Class("follow-up:kept-message-delivered")
+		}
+	}
 	c.Eval()
 	defects := d.list(checkLatency, recovering, useDict)
 	var types []string
@@ -323,6 +344,9 @@ func c06Property(t *rapid.T) {
 	}
 	if gateDefect && len(cbs) > 0 && msgType != "A" {
 		vk.Violation(t, c, "C06/gate/callback-for-defective-message/"+cls, "callback %v for a message with defects %v\n%s", cbs[0], defects, desc())
+	}
+	if gateDefect && len(lateCbs) > 0 && msgType != "A" {
+		vk.Violation(t, c, "C06/gate/callback-after-gap-fill/"+cls, "callback %v, once the gap before it was filled, for a message with defects %v\n%s", lateCbs[0], defects, desc())
 	}
 	if unspecified {
 		c.Class("unspecified(time field not looked at)")
